@@ -114,7 +114,7 @@ def _returns_in_tail(stmts) -> bool:
   return True
 
 
-def eligible(h) -> bool:
+def eligible(h, generator: bool = False) -> bool:
   n = h.node
   if h.is_lambda or not isinstance(n, ast.FunctionDef):
     return False
@@ -129,9 +129,12 @@ def eligible(h) -> bool:
   if not h.name.startswith('_'):
     return False
   for x in _own_nodes(n):
-    if isinstance(x, (ast.Yield, ast.YieldFrom, ast.Await, ast.Global,
-                      ast.Nonlocal)):
+    if isinstance(x, (ast.Await, ast.Global, ast.Nonlocal)):
       return False
+    if isinstance(x, (ast.Yield, ast.YieldFrom)) and not generator:
+      return False
+    if isinstance(x, ast.Yield) and generator:
+      return False  # only `yield from <iterable>` statements are re-written
     if isinstance(x, ast.Call) and isinstance(x.func, ast.Name) and (
         x.func.id == h.name):
       return False
@@ -261,7 +264,14 @@ class Inliner:
     self.count = 0
     self.sites: List[str] = []
 
-  def _callee(self, call, scope):
+  def _callee(self, call, scope, generator: bool = False):
+    h = self._callee0(call, scope, generator)
+    if h is not None and not generator and any(
+        isinstance(x, ast.YieldFrom) for x in ast.walk(h.node)):
+      return None
+    return h
+
+  def _callee0(self, call, scope, generator):
     fn = call.func
     if isinstance(fn, ast.Attribute) and isinstance(
         fn.value, ast.Name) and fn.value.id == 'self':
@@ -273,7 +283,7 @@ class Inliner:
           break
         m = getattr(m, 'parent', None)
       h = cls.methods.get(fn.attr) if cls is not None else None
-      if h is None or h is scope or not eligible(h):
+      if h is None or h is scope or not eligible(h, generator):
         return None
       return h
     try:
@@ -283,7 +293,7 @@ class Inliner:
     h = self.p.funcs.get(q) if q else None
     if h is not None and h.cls is not None:
       return None
-    if h is None or h is scope or not eligible(h):
+    if h is None or h is scope or not eligible(h, generator):
       return None
     if h.module is not scope.module:
       return None  # free names of the body resolve in the helper's module
@@ -379,10 +389,69 @@ class Inliner:
     self.sites.append(f'{f.qualname} <= {h.qualname}')
     return new
 
+  def _splice_generator(self, f, st) -> Optional[List[ast.stmt]]:
+    """`for T in gen(args): BODY` where gen only re-yields other iterables
+    (`yield from E` statements, possibly under ifs): the helper's body with
+    each `yield from E` written `for T in E: BODY`."""
+    if not (isinstance(st, ast.For) and isinstance(st.iter, ast.Call) and
+            not st.orelse):
+      return None
+    if any(isinstance(x, ast.Break) for b in st.body for x in ast.walk(b)):
+      return None
+    h = self._callee(st.iter, f, generator=True)
+    if h is None:
+      return None
+    body = copy.deepcopy(_strip_doc(h.node.body))
+    yf = [x for b in body for x in ast.walk(b) if isinstance(x, ast.YieldFrom)]
+    if not yf or any(isinstance(x, ast.Return) for b in body
+                     for x in ast.walk(b)):
+      return None
+    b = _bind(h, st.iter)
+    if b is None:
+      return None
+    tag = '__' + h.name.strip('_')
+    ren = {n: n + tag for n in _locals_of(h.node) | set(b)}
+    ren.pop('self', None)
+    holder = ast.Module(body=body, type_ignores=[])
+    _Rename(ren).visit(holder)
+    ok = [True]
+
+    def conv(stmts):
+      out = []
+      for s_ in stmts:
+        if isinstance(s_, ast.Expr) and isinstance(s_.value, ast.YieldFrom):
+          out.append(ast.For(target=copy.deepcopy(st.target),
+                             iter=s_.value.value,
+                             body=copy.deepcopy(st.body), orelse=[]))
+        elif isinstance(s_, ast.If):
+          s_.body = conv(s_.body) or [ast.Pass()]
+          s_.orelse = conv(s_.orelse)
+          out.append(s_)
+        elif any(isinstance(x, ast.YieldFrom) for x in ast.walk(s_)):
+          ok[0] = False
+          out.append(s_)
+        else:
+          out.append(s_)
+      return out
+
+    body = conv(holder.body)
+    if not ok[0]:
+      return None
+    binds = [ast.Assign(targets=[ast.Name(id=ren[p_], ctx=ast.Store())],
+                        value=copy.deepcopy(v)) for p_, v in b.items()]
+    new = binds + body
+    for s_ in new:
+      _fix(s_, st)
+    self.count += 1
+    self.sites.append(f'{f.qualname} <= {h.qualname}')
+    return new
+
   def _expand_stmts(self, f, stmts):
     out = []
     for st in stmts:
       new = self._splice(f, st)
+      if new is None:
+        new = self._splice_generator(f, st)
       if new is not None:
         out.extend(new)
         continue
